@@ -1,6 +1,7 @@
 package main
 
 import (
+	"runtime/debug"
 	"crypto/md5"
 	"fmt"
 	"io"
@@ -27,6 +28,7 @@ type fsRunner struct {
 	minSeg   uint32
 	fragBits uint32
 	syncMode bool
+	iters    map[string]*pogreb.ItemIterator
 }
 
 func (r *fsRunner) opts() *pogreb.Options {
@@ -155,6 +157,25 @@ func (r *fsRunner) exec(line string) string {
 			return "sync err " + errShort(err)
 		}
 		return "sync ok"
+	case "iternew":
+		if r.iters == nil {
+			r.iters = map[string]*pogreb.ItemIterator{}
+		}
+		r.iters[f[1]] = r.db.Items()
+		return "iternew ok"
+	case "iternext":
+		it := r.iters[f[1]]
+		if it == nil {
+			return "iternext noiter"
+		}
+		k, v, err := it.Next()
+		if err == pogreb.ErrIterationDone {
+			return "iternext done"
+		}
+		if err != nil {
+			return "iternext err " + errShort(err)
+		}
+		return "iternext " + interp.Hex(k) + " " + interp.Hex(v)
 	case "compact":
 		cr, err := r.db.Compact()
 		if err != nil {
@@ -218,7 +239,8 @@ func (r *fsRunner) segBytes() string {
 }
 
 var l1cmds = map[string]bool{"params": true, "open": true, "put": true, "del": true, "get": true, "getappend": true,
-	"has": true, "count": true, "items": true, "sync": true, "compact": true, "close": true, "setlock": true, "appendraw": true, "segbytes": true}
+	"has": true, "count": true, "items": true, "sync": true, "compact": true, "close": true, "setlock": true, "appendraw": true, "segbytes": true,
+	"iternew": true, "iternext": true}
 
 // genC17: programs (writes, deletes, compaction, restart, simulated unclean shutdown with a torn
 // tail) generated against the harness file system and the model, then replayed on Mem, OS, OSMMap.
@@ -245,6 +267,20 @@ func genC17(r *rng, tier string, res *Result) {
 			ops := 10 + g.r.intn(60)
 			for j := 0; j < ops; j++ {
 				g.randomOp()
+			}
+			if i%4 == 1 {
+				// a scan that is in progress while compaction removes (and, on the mapped file system,
+				// unmaps) the segment its queued items were read from
+				g.do("iternew s")
+				g.do("iternext s")
+				for _, k := range g.keys {
+					g.put(k, g.value())
+				}
+				g.compact()
+				for j := 0; j < 4; j++ {
+					g.do("iternext s")
+				}
+				g.c.tag("scan_across_compaction")
 			}
 			g.checkAll()
 			g.close()
@@ -298,6 +334,7 @@ func genC17(r *rng, tier string, res *Result) {
 		} {
 			run := &fsRunner{fsys: fsc.fsys, dir: fsc.root, maxSeg: math.MaxUint32, minSeg: 32 << 20, fragBits: 0x3f000000}
 			func() {
+				defer debug.SetPanicOnFault(debug.SetPanicOnFault(true))
 				defer func() {
 					if rec := recover(); rec != nil {
 						res.Findings = append(res.Findings, &Finding{Kind: "spec", Case: c.Name, Cmd: "replay on fs." + fsc.name,
